@@ -154,9 +154,117 @@ def stepNsec (st : State) (w : List String) : State × String :=
     | _, _, _, _ => (st, "bad-op")
   | _ => (st, "bad-op")
 
+/-! ### NSEC3 ops -/
+open SdnsVerif.Model.Nsec3 in
+def parseRec3 (s : String) : Option Nsec3 :=
+  match s.splitOn "|" with
+  | [ol, par, nx, hl, alg, fl, it, salt, cls, ts] => do
+    let par ← parseName par
+    let (oh, lab) ← (
+      if ol.startsWith "H" then
+        let h := (ol.drop 1).toString
+        let h := if h.endsWith "u" then (h.dropEnd 1).toString else h
+        (hexBytes h).map fun b => (some (b.map (·.toNat)), b.map (·.toNat))
+      else if ol.startsWith "X" then
+        (parseLabel (ol.drop 1).toString).map fun l => (none, foldLabel l)
+      else none)
+    let next ← (
+      if nx.startsWith "H" then (hexBytes (nx.drop 1).toString).map fun b => some (b.map (·.toNat))
+      else if nx.startsWith "B" then some none else none)
+    let salt ← (
+      if salt.startsWith "!" then some none
+      else (hexBytes salt).map fun b => some (b.map (·.toNat)))
+    let hl ← hl.toNat?
+    let alg ← alg.toNat?
+    let fl ← fl.toNat?
+    let it ← it.toNat?
+    let cls ← cls.toNat?
+    let ts ← parseTypes ts
+    some { owner := par ++ [lab], ownerHash := oh, next := next, hashLen := hl, alg := alg, flags := fl,
+           iter := it, salt := salt, cls := cls, types := ts }
+  | _ => none
+
+def parseHT (s : String) : Option (List (Name × List Nat)) :=
+  if s == "-" then some [] else
+  (s.splitOn ",").mapM fun kv =>
+    match kv.splitOn "=" with
+    | [n, h] => do
+      let n ← parseName n
+      let h ← hexBytes h
+      some (n, h.map (·.toNat))
+    | _ => none
+
+def htFn (t : List (Name × List Nat)) : SdnsVerif.Model.Nsec3.HashFn :=
+  fun n => (t.find? fun p => p.1 == n).map (·.2)
+
+def secStr : Except Err Bool → String
+  | .ok b => "ok secure=" ++ boolStr b
+  | .error e => e.str
+
+def hashHex (h : List Nat) : String := bytesHex (h.map UInt8.ofNat)
+
+open SdnsVerif.Model.Nsec3 in
+def stepNsec3 (st : State) (w : List String) : State × String :=
+  match w with
+  | "h" :: "new" :: _ => ({ st with h := {} }, "unmodelled")
+  | "h" :: "ring" :: _ => (st, "unmodelled")
+  | "h" :: "table" :: _ => (st, "unmodelled")
+  | ["h", "set", rs] =>
+    if rs == "-" then ({ st with h := { set := [] } }, "n=0") else
+    match (rs.splitOn ";").mapM parseRec3 with
+    | some l => ({ st with h := { set := l } }, s!"n={l.length}")
+    | none => (st, "bad-op")
+  | ["h", "prep", sg] =>
+    match parseName sg with
+    | some sg =>
+      match prepare st.h.set sg with
+      | .ok ring => (st, s!"ring={",".intercalate (ring.entries.map fun e => hashHex e.ownerHash)} cls={ring.cls}")
+      | .error e => (st, e.str)
+    | none => (st, "bad-op")
+  | ["h", "nxd", sg, q, _t, c, ht] =>
+    match parseName sg, parseName q, c.toNat?, parseHT ht with
+    | some sg, some q, some c, some ht =>
+      if !nameInZone q sg then (st, "notsigner") else
+      (st, secStr (verifyNameError (htFn ht) (st.h.set.filter fun r => nameInZone r.owner sg) sg q c))
+    | _, _, _, _ => (st, "bad-op")
+  | ["h", "nod", sg, q, t, c, ht] =>
+    match parseName sg, parseName q, t.toNat?, c.toNat?, parseHT ht with
+    | some sg, some q, some t, some c, some ht =>
+      if !nameInZone q sg then (st, "notsigner") else
+      (st, secStr (verifyNODATA (htFn ht) (st.h.set.filter fun r => nameInZone r.owner sg) sg q t c))
+    | _, _, _, _, _ => (st, "bad-op")
+  | ["h", "dlg", sg, d, ht] =>
+    match parseName sg, parseName d, parseHT ht with
+    | some sg, some d, some ht =>
+      (st, unitStr (verifyDelegation (htFn ht) (st.h.set.filter fun r => nameInZone r.owner sg) sg d))
+    | _, _, _ => (st, "bad-op")
+  | ["h", "agg", sg, q, t, c, ht] =>
+    match parseName sg, parseName q, t.toNat?, c.toNat?, parseHT ht with
+    | some sg, some q, some t, some c, some ht =>
+      (st, aggStr (evaluateAggressiveNSEC3 (htFn ht) q t c sg st.h.set))
+    | _, _, _, _, _ => (st, "bad-op")
+  | _ => (st, "bad-op")
+
+open SdnsVerif.Model.Admission in
+def stepAdm (st : State) (w : List String) : State × String :=
+  match w with
+  | ["adm", "new"] => (st, "ok")
+  | ["adm", "write", _k, reqcd, respcd, ecs, marked, agg, kind, fam, rc, cp, oo] =>
+    match parseBool reqcd, parseBool respcd, parseBool ecs, parseBool marked, parseBool agg,
+          kind.toNat?, fam.toNat?, parseBool cp, parseBool oo with
+    | some reqcd, some respcd, some ecs, some marked, some agg, some kind, some fam, some cp, some oo =>
+      let i : WriteIn :=
+        { reqCD := reqcd, respCD := respcd, ecs := ecs, hasScope := false, marked := marked,
+          copied := cp, kind := kind, agg := agg, fam := fam, nx := (rc == "nx"), optout := oo }
+      (st, s!"proof={boolStr (proofRecorded i)} cut={boolStr (cutRecorded i)} up=1")
+    | _, _, _, _, _, _, _, _, _ => (st, "bad-op")
+  | _ => (st, "bad-op")
+
 def step (st : State) (w : List String) : State × String :=
   match w with
   | "z" :: _ => stepNsec st w
+  | "h" :: _ => stepNsec3 st w
+  | "adm" :: _ => stepAdm st w
   | _ => (st, "bad-op")
 
 end Driver.C02
